@@ -245,25 +245,61 @@ inline OpResult apply_op(int op, Canvas& T, Canvas& O, const int64_t* a, const s
       res.nontrivial = !fully_inside;
       break;
     }
-    case OP_TEXT: { // x,y, fg r,g,b,a, bg r,g,b,a, string index, overload
+    case OP_TEXT: { // x,y, fg r,g,b,a, bg r,g,b,a, string index, overload + 5 * format mode
+      // The text that draw_text renders is the FORMATTED text, a byte string with a length: every byte value 0..255 can occur in it,
+      // the zero byte only through a %c conversion. Format modes (how the wanted text is handed to draw_text):
+      //   0  "%s" with the text as the argument                         (texts without a zero byte)
+      //   1  "%s%c%s": the text split around its zero byte (or, without one, around its middle byte)   (at most one zero byte)
+      //   2  the text itself as the format: '%' doubled, every zero byte a %c conversion with the argument 0   (at most 8 zero bytes)
+      //   3  "%c" alone                                                  (texts of exactly one byte)
+      // A mode that cannot express the text falls back to mode 2.
       RGBA fg = rgba_args(a + 2), bg = rgba_args(a + 6);
       size_t si = static_cast<size_t>(a[10]);
       if (si >= strings.size()) throw std::logic_error("text index outside the case's blobs");
       const std::string& s = strings[si];
-      if (s.find('\0') != std::string::npos) throw std::logic_error("text with NUL byte is outside the domain");
-      int ov = static_cast<int>(a[11]);
+      if (a[11] < 0 || a[11] >= 20) throw std::logic_error("text overload / format mode outside the domain");
+      int ov = static_cast<int>(a[11] % 5), fm = static_cast<int>(a[11] / 5);
+      size_t nz = 0;
+      for (char ch : s) nz += ch == 0;
+      if ((fm == 0 && nz > 0) || (fm == 1 && (nz > 1 || s.empty())) || (fm == 3 && s.size() != 1)) fm = 2;
+      if (fm == 2 && nz > 8) throw std::logic_error("text with more than 8 zero bytes is outside the domain");
       uint32_t f32 = compress32(fg), b32 = compress32(bg);
       ssize_t tw = 0, th = 0;
-      int e = run_catching([&] {
+      auto call = [&](const char* fmt, auto... args) {
         switch (ov) {
-          case 0: T.img.draw_text(x, y, &tw, &th, fg.r, fg.g, fg.b, fg.a, bg.r, bg.g, bg.b, bg.a, "%s", s.c_str()); break;
-          case 1: T.img.draw_text(x, y, fg.r, fg.g, fg.b, fg.a, bg.r, bg.g, bg.b, bg.a, "%s", s.c_str()); break;
-          case 2: T.img.draw_text(x, y, &tw, &th, f32, b32, "%s", s.c_str()); break;
-          case 3: T.img.draw_text(x, y, f32, b32, "%s", s.c_str()); break;
-          default: T.img.draw_text(x, y, f32, "%s", s.c_str()); break;
+          case 0: T.img.draw_text(x, y, &tw, &th, fg.r, fg.g, fg.b, fg.a, bg.r, bg.g, bg.b, bg.a, fmt, args...); break;
+          case 1: T.img.draw_text(x, y, fg.r, fg.g, fg.b, fg.a, bg.r, bg.g, bg.b, bg.a, fmt, args...); break;
+          case 2: T.img.draw_text(x, y, &tw, &th, f32, b32, fmt, args...); break;
+          case 3: T.img.draw_text(x, y, f32, b32, fmt, args...); break;
+          default: T.img.draw_text(x, y, f32, fmt, args...); break;
+        }
+      };
+      int e = run_catching([&] {
+        switch (fm) {
+          case 0: call("%s", s.c_str()); break;
+          case 1: {
+            size_t k = nz ? s.find('\0') : s.size() / 2;
+            std::string head = s.substr(0, k), tail = s.substr(k + 1);
+            call("%s%c%s", head.c_str(), static_cast<int>(static_cast<unsigned char>(s[k])), tail.c_str());
+            break;
+          }
+          case 3: call("%c", static_cast<int>(static_cast<unsigned char>(s[0]))); break;
+          default: {
+            std::string f;
+            for (char ch : s) {
+              if (ch == 0) f += "%c";
+              else if (ch == '%') f += "%%";
+              else f += ch;
+            }
+            call(f.c_str(), 0, 0, 0, 0, 0, 0, 0, 0);
+            break;
+          }
         }
       }, &ewhat);
       expect_exc(e, EXC_NONE);
+      static const char* fm_names[4] = {"text-format:%s", "text-format:%s%c%s", "text-format:text-as-format", "text-format:%c"};
+      verif::ctx().cls(fm_names[fm]);
+      if (nz) verif::ctx().cls("text:zero-byte-in-formatted-text");
       if (ov >= 2) {
         fg = expand32(f32);
         bg = ov == 4 ? RGBA{0, 0, 0, 0} : expand32(b32);
